@@ -20,6 +20,9 @@ fuzz_target!(|data: &[u8]| {
             _ => return,
         }
     };
+    if !mqtt_verif::conv::representable5(&pkt) {
+        return;
+    }
     let case = mqtt_verif::props::c01::Case5 { pkt, layout: Layout::default(), payload_seed: u32::from(first) };
     if let Err(f) = mqtt_verif::props::c01::check_case5(&case) {
         common::report("C01", &f);
